@@ -185,7 +185,10 @@ class CanvasCache:
         if not sizes:
             with contextlib.suppress(KeyError):
                 del cls._widgets[widget]
-                del cls._deps[widget]
+            # nothing is cached for this widget any more, so invalidate(widget) could not reach what depends on
+            # it later (canvases that named it with set_depends() do not keep its canvases alive): drop them now
+            for dependant in cls._deps.pop(widget, []):
+                cls.invalidate(dependant)
 
     @classmethod
     def clear(cls) -> None:
